@@ -184,9 +184,11 @@ def r52(db, ctx):
         Hk = L.inner[0]
         Lk = E.loops[Hk]
         probs = []
-        if not (Lk.iter and Lk.iter[0] == 'range' and norm(Lk.iter[1]) == ('k', 0) and common.is_usize_const(Lk.iter[2])):
+        if not (Lk.iter and Lk.iter[0] == 'range' and norm(Lk.iter[1]) == ('k', 0) and common.is_usize_const(Lk.iter[2], 'K')):
             probs.append(f'symbol loop runs over {Lk.iter}, expected 0..K')
         a_elem = ('elem', Lk.iter, Hk)
+        # the block's input load: through a pointer bumped by W per block, or through `seq.as_ptr().add(i)` with the block counter i
+        block_load_keys = {a.ptr.key() for a in E.acc if a.kind == 'load' and a.loops == (H,) and isinstance(a.ptr, Ptr)}
         vecs = {l: v for l, v in Lk.carried.items() if isinstance(v, Vec)}
         enc = unk = None
         for l, v in vecs.items():
@@ -201,7 +203,7 @@ def r52(db, ctx):
                     break
                 mask, val = t[1], t[2]
                 letter, ascii_ = mask[1], mask[2]
-                if not (isinstance(letter, tuple) and letter[0] == 'ld' and letter[2] == i and letter[1][0][:2] == ('phi', H)):
+                if not (isinstance(letter, tuple) and letter[0] == 'ld' and letter[2] == i and letter[1] in block_load_keys):
                     ok_all = False
                     probs.append(f'lane {i}: compared byte is {str(letter)[:60]}, not input byte {i} of the block')
                     break
@@ -258,10 +260,17 @@ def r52(db, ctx):
             if not (len(st) == 1 and len(ld) == 1 and all(st[0].value.b[i] == ('out', Hk, enc, i) for i in range(W))):
                 probs.append('the stored block is not the encoded vector')
             else:
-                sp, lp = st[0].ptr, ld[0].ptr
-                su, lu = KN.ptr_update(E, H, sp.base[2]), KN.ptr_update(E, H, lp.base[2])
-                si, li = L.carried[sp.base[2]], L.carried[lp.base[2]]
-                if not (su == lu == {'': W} and not si.off and not li.off and si.base == ('slice', ('p', 2)) and li.base == ('slice', ('p', 1)) and not sp.off and not lp.off):
+                from . import C06
+                (sr, ssteps, soff), (lr, lsteps, loff) = KN.root_of(E, st[0].ptr), KN.root_of(E, ld[0].ptr)
+                together = False
+                if sr is not None and lr is not None and sr.base == ('slice', ('p', 2)) and lr.base == ('slice', ('p', 1)):
+                    bumped = [(H_, st_) for H_, _, st_ in ssteps] == [(H, {'': W})] == [(H_, st_) for H_, _, st_ in lsteps] and not soff and not loff
+                    # `base.add(i)`: both at offset i, i the block counter starting at 0 and advancing by W
+                    cr = C06.counter_relation(E, H)
+                    counted = not ssteps and not lsteps and soff == loff and len(soff) == 1 and \
+                        any(soff == {X.canon(('phi', H, cl)): 1} and norm(ci) == ('k', 0) and cs == W for cl, ci, cs in cr)
+                    together = bumped or counted
+                if not together:
                     probs.append('source and destination pointers do not advance together from the starts of seq / dst')
         if probs:
             ctx.fail('R5.2', f, 'encoder lanes', '; '.join(probs[:3]))
@@ -383,8 +392,12 @@ def r53_54(db, ctx):
             rs_ok = False
             for bi, t in rescans:
                 a_ = norm(R.operand(t['args'][0]))
-                if a_[0] == 'elem' and X.canon(a_[1]) in ('core::slice::iter(arg1)',):
-                    rs_ok = True
+                if a_[0] == 'elem':
+                    src = a_[1]
+                    while src[0] == 'call' and len(src[2]) == 1 and src[1].endswith(('slice::iter', 'into_iter', 'Iterator::copied', 'Iterator::cloned')):
+                        src = src[2][0]
+                    if src == ('p', 1):           # the whole input, from its first byte, in order
+                        rs_ok = True
                 # index form: seq[i] for i in 0..seq.len()
                 bi_ = m(('idx', ('p', 1), ('elem', ('agg', '_', (('k', 0), '$hi')), '$L')), a_)
                 if bi_ is not None and (common.is_len_of(bi_['$hi'], ('p', 1)) or (bi_['$hi'][0] == 'v' and f.local_name(bi_['$hi'][1]) == 'l')):
